@@ -354,6 +354,31 @@ class Ownership:
                 return verdict
         return True
 
+    def iter_elements_owned(self, u: Unit, nid: Optional[int], e: ast.AST,
+                            stack: Tuple[str, ...] = (), depth: int = 0) -> Optional[bool]:
+        """Are the objects a loop over e yields owned?  zip / enumerate / reversed / list / sorted
+        pass the elements of their arguments on; a container that belongs to somebody else
+        (an attribute, a property that hands out a shallow copy of its list) yields that
+        owner's objects."""
+        if depth > 4:
+            return None
+        if isinstance(e, ast.Call) and isinstance(e.func, ast.Name) and \
+                e.func.id in ("zip", "enumerate", "reversed", "list", "tuple", "sorted", "iter"):
+            verdict: Optional[bool] = True
+            for a in e.args:
+                o = self.iter_elements_owned(u, nid, a, stack, depth + 1)
+                if o is False:
+                    return False
+                if o is None:
+                    verdict = None
+            return verdict
+        if isinstance(e, ast.Call) and isinstance(e.func, ast.Name) and e.func.id == "range":
+            return True
+        base = self.owned(u, nid, e, stack, set())
+        if base is not True:
+            return base
+        return self.elements_owned(u, nid, e, stack, depth + 1)
+
     def _owned_def(self, u: Unit, d, stack, seen) -> Optional[bool]:
         kinds = [s[0] for s in d.sel]
         if "param" in kinds:
@@ -384,7 +409,7 @@ class Ownership:
             if isinstance(v, ast.Call) and isinstance(v.func, ast.Name) and v.func.id == "enumerate" \
                     and d.sel and d.sel[-1][0] == "idx" and d.sel[-1][1] == 0:
                 return True
-            return self.owned(u, d.node, v, stack, seen)   # element of an owned container
+            return self.iter_elements_owned(u, d.node, v, stack)
         if "with" in kinds:
             return None
         if "idx" in kinds or "star" in kinds:
